@@ -186,8 +186,8 @@ NOT_DECIDED = {
     'C06': [
         'operator precedence and associativity: data in the generated LALR tables (lalr.rs) and the table lookups of the driver loop: only the BOUNDED stand-in operator-precedence-round-trip looks at them (every ordered pair and triple of operators); '
         'which AstNode each reduce action builds is not under contract',
-        'numeric literal assembly and keyword recognition in read_next_token (slice patterns over the 12-character window) - not yet under contract',
-        'consume_name (C10) - not yet under contract',
+        'keyword and operator recognition in read_next_token (slice patterns over the 12-character window): only its two numeric arms are under contract (R26)',
+        'consume_name (C10): under contract in unit names, not here',
     ],
     'C05': [
         'lexer functions under contract: char_at, consume_whitespace, consume_comment, comment_length, is_next_character, read_input, consume_digits, consume_hex_digit, consume_character(s), consume_chars, consume_unicode_literal, consume_unicode, consume_string: '
